@@ -18,6 +18,7 @@ import (
 	"strings"
 
 	"github.com/bufbuild/buf/private/bufpkg/bufcas"
+	"github.com/bufbuild/buf/private/bufpkg/bufconfig"
 	"github.com/bufbuild/buf/private/bufpkg/bufprotoplugin"
 	"github.com/bufbuild/buf/private/pkg/slogext"
 	"github.com/bufbuild/buf/private/pkg/storage"
@@ -75,6 +76,7 @@ func under(prefix, key string) bool {
 type base struct {
 	name    string
 	kind    string // mem | os | ossym
+	links   map[string]bool // planted symbolic links (kind os only): never objects
 	bucket  storage.ReadWriteBucket
 	dir     string // os root
 	model   map[string]string
@@ -366,14 +368,22 @@ var universeDirs = []string{"a", "a/x", "b", "b/y", "c", "a-b", "a.d", "b/y.z", 
 var universeNames = []string{"one.proto", "two.proto", "three.txt", "four", "five.proto", "a.txt", "one.proto.bak", "x.y", "sp ace.txt", "two  spaces.proto", "ünï.proto", " lead", "trail ", ".hidden", ".one.proto"}
 var mapPrefixes = []string{"a", "a/x", "b", "zz", ".", ".cfg"}
 
+// C13 is about containment only: when this engine runs on its behalf, a bucket that merely
+// disagrees with the map model (C14's subject) is counted, not reported; and the other way round.
+var c13Oracles = map[string]bool{"escape-rejected": true, "nothing-outside-root-touched": true, "nothing-outside-root-read": true}
+
 func (m *sim) violate(oracle, site, format string, args ...any) {
+	if (m.prop == "C13") != c13Oracles[oracle] {
+		m.counters["other-property:"+oracle]++
+		return
+	}
 	msg := fmt.Sprintf(format, args...)
 	msg = strings.ReplaceAll(msg, m.env.Scratch, "<scratch>")
 	m.s.Violate(oracle, m.prop+"|"+oracle+"|"+site, "%s", msg)
 }
 
 func (m *sim) newBase(i int) *base {
-	b := &base{name: fmt.Sprintf("B%d", i), model: map[string]string{}, everDir: map[string]bool{}, inflight: map[string]*putHandle{}}
+	b := &base{name: fmt.Sprintf("B%d", i), model: map[string]string{}, everDir: map[string]bool{}, inflight: map[string]*putHandle{}, links: map[string]bool{}}
 	b.kind = tape.Pick(m.tp, "basekind", []string{"mem", "os", "os", "ossym"})
 	switch b.kind {
 	case "mem":
@@ -389,11 +399,40 @@ func (m *sim) newBase(i int) *base {
 			opts = append(opts, storageos.ProviderWithSymlinks())
 			bopts = append(bopts, storageos.ReadWriteBucketWithSymlinksIfSupported())
 		}
-		bk, err := storageos.NewProvider(opts...).NewReadWriteBucket(b.dir, bopts...)
+		// the root as the caller spells it: absolute, or relative to the working directory (which
+		// is the sibling directory "outer/B", a string prefix of every root's parent)
+		rootArg := b.dir
+		switch m.tp.Draw("rootspell", 4) {
+		case 1:
+			rootArg = "../" + b.name + "/root"
+		case 2:
+			rootArg = "../B/../" + b.name + "/./root"
+		case 3:
+			rootArg = "./../" + b.name + "//root/"
+		}
+		if rootArg != b.dir {
+			m.s.Probe("relative-root")
+		}
+		bk, err := storageos.NewProvider(opts...).NewReadWriteBucket(rootArg, bopts...)
 		if err != nil {
 			panic(err)
 		}
 		b.bucket = bk
+		if b.kind == "os" && m.tp.Draw("plantlink", 3) == 2 {
+			// a symbolic link at an object path, pointing at a file outside the root: this bucket
+			// does not follow links, so there is no object at that path for get, stat and walk
+			lp := m.drawUniversePath()
+			ext := filepath.Join(b.dir, filepath.FromSlash(lp))
+			if err := os.MkdirAll(filepath.Dir(ext), 0o755); err != nil {
+				panic(err)
+			}
+			if err := os.Symlink(filepath.Join(m.root, "outer", "sentinel-outer.txt"), ext); err != nil {
+				panic(err)
+			}
+			b.links[lp] = true
+			m.markDirs(b, lp)
+			m.s.Probe("planted-link")
+		}
 	}
 	return b
 }
@@ -587,8 +626,14 @@ func (m *sim) busy(b *base) bool { return len(b.inflight) > 0 }
 // and memory legitimately differ.
 func (m *sim) blocked(v view, norm string, creating bool) bool {
 	for _, l := range v.sources(norm) {
+		if creating && l.b.links[l.p] {
+			return true
+		}
 		for d := filepath.Dir(l.p); d != "." && d != "/"; d = filepath.Dir(d) {
 			if _, ok := l.b.model[d]; ok {
+				return true
+			}
+			if l.b.links[d] {
 				return true
 			}
 			if l.b.inflight[d] != nil {
@@ -694,7 +739,11 @@ func (m *sim) stepGetOpen(v view) {
 		}
 	case !ok:
 		if err == nil {
+			data, _ := io.ReadAll(roc)
 			_ = roc.Close()
+			if string(data) == "outer" {
+				m.violate("nothing-outside-root-read", site, "Get(%q) on %s returned the content of a file outside the root", p, v.label())
+			}
 			m.violate("get-matches-model", site, "Get(%q) on %s returned an object the model does not have", p, v.label())
 		} else if !storage.IsNotExist(err) {
 			m.violate("notexist-classified", site, "Get(%q) on %s: absent object reported as %v instead of not-exist", p, v.label(), err)
@@ -1010,7 +1059,7 @@ func (m *sim) stepDelete(v view) {
 	var bp string
 	if !esc && norm != "." {
 		b, bp = v.target(norm)
-		if m.busy(b) || m.blocked(v, norm, false) {
+		if m.busy(b) || m.blocked(v, norm, false) || b.links[bp] {
 			return
 		}
 	}
@@ -1098,9 +1147,12 @@ func (m *sim) stepCopy(src, dst view) {
 	for k := range db.model {
 		all = append(all, k)
 	}
+	for l := range db.links {
+		all = append(all, l)
+	}
 	for k := range want {
 		_, bp := dst.target(k)
-		if db.everDir[bp] {
+		if db.everDir[bp] || db.links[bp] {
 			return
 		}
 		if _, ok := db.model[bp]; !ok {
@@ -1390,6 +1442,39 @@ func (m *sim) stepFileNodes() {
 	m.s.Probe("filenode-paths")
 }
 
+// stepConfigDirs: directories supplied by configuration files (workspace directories, module
+// paths, exclude paths) are confined to the directory of the configuration file.
+func (m *sim) stepConfigDirs() {
+	p := m.hostile()
+	_, esc := resolve(p)
+	type cfg struct {
+		site, file, text string
+		work             bool
+	}
+	q := fmt.Sprintf("%q", p)
+	cases := []cfg{
+		{site: "work-directory", file: "buf.work.yaml", text: "version: v1\ndirectories:\n  - " + q + "\n", work: true},
+		{site: "module-path", file: "buf.yaml", text: "version: v2\nmodules:\n  - path: " + q + "\n"},
+		{site: "exclude-path", file: "buf.yaml", text: "version: v2\nmodules:\n  - path: .\n    excludes:\n      - " + q + "\n"},
+		{site: "v1-exclude", file: "buf.yaml", text: "version: v1\nbuild:\n  excludes:\n    - " + q + "\n"},
+	}
+	c := cases[m.tp.Draw("cfgcase", len(cases))]
+	var err error
+	if c.work {
+		_, err = bufconfig.ReadBufWorkYAMLFile(strings.NewReader(c.text), c.file)
+	} else {
+		_, err = bufconfig.ReadBufYAMLFile(strings.NewReader(c.text), c.file)
+	}
+	m.s.Event("config %s %q -> err=%v", c.site, p, err != nil)
+	if esc {
+		m.hostileSeen["config:"+p] = struct{}{}
+		if err == nil {
+			m.violate("escape-rejected", "config|"+c.site, "%s accepted %q as %s although it leaves the directory of the file", c.file, p, c.site)
+		}
+	}
+	m.s.Probe("config-directories")
+}
+
 // stepHostileArchive feeds an archive with hostile entry names to Untar/Unzip.
 func (m *sim) stepHostileArchive(v view) {
 	for _, b := range v.roots() {
@@ -1649,6 +1734,16 @@ func Run(tp *tape.Tape, env *engine.Env) *engine.Outcome {
 	if err := os.MkdirAll(filepath.Join(m.root, "outer"), 0o755); err != nil {
 		panic(err)
 	}
+	// the working directory of the process: relative bucket roots are resolved against it
+	if err := os.MkdirAll(filepath.Join(m.root, "outer", "B"), 0o755); err != nil {
+		panic(err)
+	}
+	if wd, err := os.Getwd(); err == nil {
+		defer func() { _ = os.Chdir(wd) }()
+	}
+	if err := os.Chdir(filepath.Join(m.root, "outer", "B")); err != nil {
+		panic(err)
+	}
 	thread.SetParallelism(1 + tp.Draw("par", 4))
 	m.buildViews()
 	m.markAnchors()
@@ -1724,12 +1819,16 @@ func Run(tp *tape.Tape, env *engine.Env) *engine.Outcome {
 				m.stepPluginResponse(v)
 			}
 		case op == 19 && tp.Draw("special19", 4) == 3:
-			if tp.Draw("which19", 2) == 0 {
+			switch tp.Draw("which19", 3) {
+			case 0:
 				name = "foreign-archive"
 				m.stepForeignArchive()
-			} else {
+			case 1:
 				name = "filenode"
 				m.stepFileNodes()
+			default:
+				name = "config-dirs"
+				m.stepConfigDirs()
 			}
 		case op == 19:
 			if tp.Draw("archopts", 3) == 2 {
